@@ -58,8 +58,8 @@ type reqSpec struct {
 	hdr     string
 	body    string
 	ctxVal  string
-	status  int // 0: the handler sets none
-	early   int // > 0: an informational 1xx header sent before the final status
+	status  int  // 0: the handler sets none
+	early   int  // > 0: an informational 1xx header sent before the final status
 	panics  bool // the handler panics with http.ErrAbortHandler after replying
 	reply   string
 	wrapped int // which of the Wrap results serves it
@@ -72,7 +72,7 @@ type world struct {
 	k     *kernel.Kernel
 	rc    *kernel.RunCtx
 	specs []*reqSpec
-	cur   []int // (S) task index -> id of the request it is serving, -1 none
+	cur   []int            // (S) task index -> id of the request it is serving, -1 none
 	trail map[int][]string // (S) request id -> sequence of "mw<j>" / "handler"
 	logs  map[int][]logRec // (S) request id -> records seen by the base log handler
 	keep  bool             // base log handler retains the attribute slice given to WithAttrs
